@@ -25,7 +25,6 @@ pub fn check_string(sh: &Shared, c: &SCase) -> Check {
     }
     let f = fmts::e(fi);
     let s = c.s.as_str();
-    sh.watch(|| json!({"stream": "strings", "case": c}));
     sh.eval();
     sh.class(&format!("source/{}", c.class));
     // stand-alone truth / budget parsers: an Ok value is in range too
@@ -42,7 +41,6 @@ pub fn check_string(sh: &Shared, c: &SCase) -> Check {
         }
     }
     let r = guard(|| f.parse::<Narsese>(s));
-    sh.unwatch();
     let v = match r {
         Err(_) => {
             // a panic is C04's violation; here the input simply produced no value
@@ -62,10 +60,14 @@ pub fn check_string(sh: &Shared, c: &SCase) -> Check {
         sh.class("accepted/not-formatter-output");
         sh.sample(&format!("lenient/{}/{}", c.class, fmts::FMT_NAMES[fi]), || json!({"format": fmts::FMT_NAMES[fi], "input": s, "reads_as": canonical}));
     }
+    // from here on a crash is this property's business (formatting an accepted value)
+    sh.watch(|| json!({"stream": "strings", "case": c}));
+    let formats = wf::formats_everywhere(&v);
+    sh.unwatch();
     if let Err(e) = wf::narsese_wf(&v, true) {
         fail!("ill-formed:enum-parser", "format {}\ninput {s:?}\nreturned Ok, but: {e}\nvalue {v:?}", fmts::FMT_NAMES[fi]);
     }
-    if let Err(e) = wf::formats_everywhere(&v) {
+    if let Err(e) = formats {
         fail!("unformattable:enum-parser", "input {s:?}\n{e}");
     }
     Ok(())
